@@ -56,6 +56,15 @@ def plan(tier, seed):
     # worker loop: per-thread work storage is given back exactly once on every non-memory-error return (incl. singular)
     from props.C06 import thr_query
     qs.append(thr_query('C17', 6, 2))
+    # ... and when the per-thread work storage is refused (caller workspace too small for this worker) or granted, the worker's own
+    # heap blocks (counting USER_MALLOC/USER_FREE) are all returned
+    q = thr_query('C17', 6, 2)
+    q.name += '.leak'
+    q.defs['LEAKCHK'] = None
+    q.params = dict(q.defs)
+    q.srcs = [(s, MALLOC) if isinstance(s, str) else (s[0], MALLOC + s[1]) for s in q.srcs]
+    q.group = 'worker loop: heap balance of the worker, work storage granted or refused'
+    qs.append(q)
     # non-factoring returns of the real expert driver: workspace query, caller workspace too small, allocator refusal
     qs += leakdrv_plan('C17', tier, seed)
     return qs
